@@ -1,4 +1,284 @@
-/-! Line protocol handler for the `pview` domain (stub until the model exists). -/
+import OFCore.ParamView
+import OFCore.Drv.Par
+/-! Line protocol for the `pview` domain (every way of reading parameters, property C07). Mathlib-free.
+
+```
+pview h <init> <ops> <ntrees> <tree>…      one process: system 0 and the reforms created by the history
+    -> <answer>|<answer>|…                 one answer per operation
+init  = - | <k>                            system 0 starts without parameters | with tree k
+ops   = <op>;<op>;…                        fields of an op are separated by ':'
+  ra:<s>:<form>:<d>:<path>                 the four routes at once: view, parameter object, formula, traced formula
+                                           -> <view>&<tree>&<formula>&<traced>^<log>
+  rv:<s>:<form>:<d>:<path>                 system.get_parameters_at_instant(<d as form>).<path>      -> <res>
+  rt:<s>:<d>:<path>                        system.parameters.<path>(d)                                -> <res>
+  rf:<s>:<0|1>:<form>:<d>:<path>           in a formula (traced or not): parameters(<d as form>).<path> -> <res>^<log>
+  nr:<b>:<k>                               SomeReform(system b); the next k operations run inside apply() -> new<id>
+  md:<s>:<edit>+<edit>…                    reform.modify_parameters(modifier)                        -> ok | ERR
+       edit = u,<path>,<a>,<b|->,<v|null>    parameters.<path>.update(start=a, stop=b, value=v)
+            | r,<k>                           the modifier returns tree k instead
+            | x                               the modifier returns something that is not a ParameterNode
+  ld:<s>:<k>                               system.load_parameters(directory holding tree k)           -> ok
+  fx:<s>:<route>:<form>:<d>:<path>:<kind>:<keys>:<steps>    <node at d>[key vector]<steps>            -> <rows>[^<log>]
+       route = v | t | f | g               view | parameter object | formula | traced formula
+       kind  = n (names a,b,…) | i (integers) | m (Enum members) | c (EnumArray); for m and c
+               keys = <name~name~…>@<index,index,…>; an empty vector is '-'
+       steps = - | <step>/<step>…  step = f=<name> (attribute / string item) | k=<name,name,…> (string vector)
+  ao:<s>:<route>:<form>:<d>:<path>:<dates>:<steps>         <node at d>[datetime64 vector]<steps>      -> <rows>[^<log>]
+path  = - | a.b.c        res = none | <token> | <scale> | {<name>=<res>,…} (children sorted by name) | ERR
+rows  = [<row>,…] | ERR  row = <p/q> | {<name>=<row>,…}
+log   = <name>@<d>=<value>,…   (what the tracer recorded, in order)
+tree  = as in `par t` (Drv/Par.lean); the top of every tree is a node
+```
+-/
 namespace OFCore.Drv
-def handlePView (_args : List String) : String := "BAD"
+open OFCore.Param OFCore.PView
+
+/-- conversion to the `"float"` dtype, as a canonical rational token -/
+def pvNum (v : String) : Option String :=
+  if v = "T" then some "1" else if v = "F" then some "0" else (parseRat? v).map showRat
+
+def pvPath (s : String) : List String := if s = "-" then [] else s.splitOn "."
+
+def pvList (s : String) : List String := if s = "-" then [] else s.splitOn ","
+
+partial def pvShowSnap : Snap String → String
+  | .val v => v
+  | .scale s => showScale s
+  | .node cs => "{" ++ ",".intercalate ((sortFields plainLt cs).map fun (k, s) => s!"{k}={pvShowSnap s}") ++ "}"
+
+def pvShowRes : Except String (Option (Snap String)) → String
+  | .ok (some s) => pvShowSnap s
+  | .ok none => "none"
+  | .error _ => "ERR"
+
+partial def pvShowRow : VRow String → String
+  | .leaf w => w
+  | .record fs => "{" ++ ",".intercalate ((sortFields plainLt fs).map fun (k, r) => s!"{k}={pvShowRow r}") ++ "}"
+
+def pvShowRows : Except String (List (VRow String)) → String
+  | .ok rows => "[" ++ ",".intercalate (rows.map pvShowRow) ++ "]"
+  | .error _ => "ERR"
+
+def pvShowLog (log : List (LogEntry String)) : String :=
+  ",".intercalate (log.map fun e => s!"{e.name}@{e.date}={e.value}")
+
+def pvShowVLog (log : List (LogEntry (List (VRow String)))) : String :=
+  ",".intercalate (log.map fun e => s!"{e.name}@{e.date}={pvShowRows (.ok e.value)}")
+
+/-! ### modifiers -/
+
+def replaceFirst (cs : List (String × PNode String)) (k : String) (c : PNode String) : List (String × PNode String) :=
+  match cs with
+  | [] => []
+  | (k', x) :: r => if k' = k then (k', c) :: r else (k', x) :: replaceFirst r k c
+
+/-- `parameters.<path>.update(…)` on the (copied) tree -/
+def updateAt (t : PNode String) (path : List String) (g : List (Entry String) → List (Entry String)) :
+    Except String (PNode String) :=
+  match path with
+  | [] =>
+    match t with
+    | .param l => .ok (.param (g l))
+    | .scale _ _ => .error "AttributeError"
+    | .node _ => .error "AttributeError"
+  | k :: p =>
+    match t with
+    | .node cs =>
+      match assoc k cs with
+      | none => .error "AttributeError"
+      | some c =>
+        match updateAt c p g with
+        | .ok c' => .ok (.node (replaceFirst cs k c'))
+        | .error e => .error e
+    | .param _ => .error "AttributeError"
+    | .scale _ _ => .error "AttributeError"
+
+inductive Edit where
+  | upd (path : List String) (a : Int) (b : Option Int) (v : Option String)
+  | ret (k : Nat)
+  | bad
+
+def parseEdit? (s : String) : Option Edit :=
+  match s.splitOn "," with
+  | ["u", p, a, b, v] => do
+    let a ← a.toInt?
+    let b ← (if b = "-" then some none else b.toInt?.map some)
+    let v ← (if v = "null" then some none else if v = "" then none else some (some v))
+    if p = "-" then none else pure (.upd (pvPath p) a b v)
+  | ["r", k] => k.toNat?.map .ret
+  | ["x"] => some .bad
+  | _ => none
+
+def applyEdit (trees : List (PNode String)) (t : PNode String) : Edit → Except String (PNode String)
+  | .upd p a b v => updateAt t p (fun l => update l a b v)
+  | .ret k => match trees[k]? with | some t' => .ok t' | none => .error "no such tree"
+  | .bad => .ok (.param [])
+
+def modifierOf (trees : List (PNode String)) (es : List Edit) (t : PNode String) : Except String (PNode String) :=
+  es.foldl (fun acc e => match acc with | .ok t => applyEdit trees t e | .error m => .error m) (.ok t)
+
+/-! ### operations -/
+
+def pvObs : Obs String → String
+  | .value r log => pvShowRes r ++ (if log.isEmpty then "" else "^" ++ pvShowLog log)
+  | .created id => s!"new{id}"
+  | .done => "ok"
+  | .failed _ => "ERR"
+
+def pvObsLog : Obs String → String
+  | .value r log => pvShowRes r ++ "^" ++ pvShowLog log
+  | o => pvObs o
+
+def parseSteps? (s : String) : Option (List VStep) :=
+  if s = "-" then some [] else
+  allSome ((s.splitOn "/").map fun f =>
+    match f.splitOn "=" with
+    | ["f", k] => if k = "" then none else some (VStep.field k)
+    | ["k", ks] => some (VStep.index (pvList ks))
+    | _ => none)
+
+def parseKeys? (kind keys : String) : Option KeyVec :=
+  match kind with
+  | "n" => some (.names (pvList keys))
+  | "i" => (allSome ((pvList keys).map String.toInt?)).map .ints
+  | "m" | "c" =>
+    match keys.splitOn "@" with
+    | [ns, is] => do
+      let is ← allSome ((pvList is).map String.toNat?)
+      let ns := if ns = "" then [] else ns.splitOn "~"
+      pure (if kind = "m" then .members ns is else .codes ns is)
+    | _ => none
+  | _ => none
+
+def dottedName (path : List String) : String := path.foldl composeName ""
+
+/-- the node at `d` reached through one of the four routes (and the state after the view was read) -/
+def nodeVia (w : World String) (route : String) (s form : Nat) (d : Int) (path : List String) :
+    Option (World String × Except String (Option (Snap String))) :=
+  match route with
+  | "t" =>
+    match w.systems[s]? with
+    | none => none
+    | some r =>
+      match r.tree with
+      | none => some (w, .error "TypeError: None")
+      | some t => some (w, readTreeAt t path d)
+  | "v" | "f" | "g" =>
+    match viewAt w s form d with
+    | none => none
+    | some (w', root) => some (w', navView root path)
+  | _ => none
+
+/-- a vector read: `index` builds the rows from the node at `d`, then the steps follow -/
+def vecRead (w : World String) (route : String) (s form : Nat) (d : Int) (path : List String)
+    (index : Snap String → Except String (List (VRow String))) (steps : List VStep) :
+    Option (World String × String) :=
+  match nodeVia w route s form d path with
+  | none => none
+  | some (w', .error _) => some (w', "ERR")
+  | some (w', .ok none) => some (w', "ERR")                 -- `None[keys]`
+  | some (w', .ok (some node)) =>
+    match index node with
+    | .error _ => some (w', "ERR")
+    | .ok rows =>
+      if route = "g" then
+        let (r, log) := tracedVec d (dottedName path) rows steps []
+        match r with
+        | .error _ => some (w', "ERR")
+        | .ok _ => some (w', pvShowRows r ++ "^" ++ pvShowVLog log)
+      else some (w', pvShowRows (vsteps rows steps))
+
+def sysIdx? (w : World String) (s : String) : Option Nat :=
+  s.toNat?.bind fun k => if k < w.systems.length then some k else none
+
+structure PvCtx where
+  trees : List (PNode String)
+
+def pvOp (ctx : PvCtx) (w : World String) (op : String) : Option (World String × String) :=
+  match op.splitOn ":" with
+  | ["ra", s, form, d, path] => do
+    let s ← sysIdx? w s; let form ← form.toNat?; let d ← d.toInt?
+    let p := pvPath path
+    let (w1, o1) := step w (.readView s form d p)
+    let (w2, o2) := step w1 (.readTree s p d)
+    let (w3, o3) := step w2 (.readFormula s false 2 d p)
+    let (w4, o4) := step w3 (.readFormula s true 2 d p)
+    pure (w4, pvObs o1 ++ "&" ++ pvObs o2 ++ "&" ++ pvObs o3 ++ "&" ++ pvObsLog o4)
+  | ["rv", s, form, d, path] => do
+    let s ← sysIdx? w s; let form ← form.toNat?; let d ← d.toInt?
+    let (w', o) := step w (.readView s form d (pvPath path))
+    pure (w', pvObs o)
+  | ["rt", s, d, path] => do
+    let s ← sysIdx? w s; let d ← d.toInt?
+    let (w', o) := step w (.readTree s (pvPath path) d)
+    pure (w', pvObs o)
+  | ["rf", s, tr, form, d, path] => do
+    let s ← sysIdx? w s; let form ← form.toNat?; let d ← d.toInt?
+    let tr ← (if tr = "1" then some true else if tr = "0" then some false else none)
+    let (w', o) := step w (.readFormula s tr form d (pvPath path))
+    pure (w', pvObsLog o)
+  | ["nr", b, k] => do
+    let b ← sysIdx? w b; let _ ← k.toNat?
+    let (w', o) := step w (.newReform b)
+    pure (w', pvObs o)
+  | ["md", s, edits] => do
+    let s ← sysIdx? w s
+    let es ← allSome ((edits.splitOn "+").map parseEdit?)
+    let (w', o) := step w (.modify s (modifierOf ctx.trees es))
+    pure (w', pvObs o)
+  | ["ld", s, k] => do
+    let s ← sysIdx? w s; let k ← k.toNat?
+    match ctx.trees[k]? with
+    | some (.node cs) =>
+      let (w', o) := step w (.reload s cs)
+      pure (w', pvObs o)
+    | _ => none
+  | ["fx", s, route, form, d, path, kind, keys, steps] => do
+    let s ← sysIdx? w s; let form ← form.toNat?; let d ← d.toInt?
+    let kv ← parseKeys? kind keys
+    let steps ← parseSteps? steps
+    vecRead w route s form d (pvPath path) (fun node => fancy pvNum node kv.strs) steps
+  | ["ao", s, route, form, d, path, dates, steps] => do
+    let s ← sysIdx? w s; let form ← form.toNat?; let d ← d.toInt?
+    let dates ← allSome ((pvList dates).map String.toInt?)
+    let steps ← parseSteps? steps
+    vecRead w route s form d (pvPath path) (fun node => asof pvNum node dates) steps
+  | _ => none
+
+def pvRun (ctx : PvCtx) : World String → List String → Option (List String)
+  | _, [] => some []
+  | w, op :: ops =>
+    match pvOp ctx w op with
+    | none => none
+    | some (w', out) => (pvRun ctx w' ops).map (out :: ·)
+
+partial def parseTrees? : Nat → List String → Option (List (PNode String))
+  | 0, [] => some []
+  | 0, _ :: _ => none
+  | n + 1, toks => do
+    let (t, rest) ← parseTree? toks
+    match t with
+    | .node _ =>
+      let ts ← parseTrees? n rest
+      pure (t :: ts)
+    | _ => none
+
+def handlePView (args : List String) : String :=
+  match args with
+  | "h" :: init :: ops :: n :: toks =>
+    match n.toNat?.bind (fun n => parseTrees? n toks) with
+    | none => "BAD"
+    | some trees =>
+      let t0? : Option (Option (PNode String)) :=
+        if init = "-" then some none else (init.toNat?.bind (fun k => trees[k]?)).map some
+      match t0? with
+      | none => "BAD"
+      | some t0 =>
+        let w : World String := ⟨[⟨t0, none⟩], []⟩
+        if ops = "" then "BAD" else
+        match pvRun ⟨trees⟩ w (ops.splitOn ";") with
+        | some outs => "|".intercalate outs
+        | none => "BAD"
+  | _ => "BAD"
+
 end OFCore.Drv
